@@ -94,6 +94,9 @@ func replay(bh *behaviour, seed int64) (sig, what string, div *divergence, unrea
 		w.net[p] = append(w.net[p], wire{b: []byte("?OTRv2?"), grp: &group{frags: [][]byte{[]byte("?OTRv2?")}}})
 	}
 	stepNo := 0
+	faulted := false
+	sentBodies := map[string][][]byte{}
+	dlvIdx := map[string]int{}
 	defer func() {
 		if r := recover(); r != nil {
 			st := debug.Stack()
@@ -143,9 +146,11 @@ func replay(bh *behaviour, seed int64) (sig, what string, div *divergence, unrea
 			}
 			toSend, err = c.Authenticate(q, []byte("secret-"+bh.Sec[s.P]))
 		case "drop":
+			faulted = true
 			w.net[s.P] = w.net[s.P][1:]
 			continue
 		case "dup":
+			faulted = true
 			q := w.net[s.P]
 			cp := q[0]
 			cp.b = append([]byte(nil), cp.b...)
@@ -155,6 +160,7 @@ func replay(bh *behaviour, seed int64) (sig, what string, div *divergence, unrea
 			w.net[s.P] = nq
 			continue
 		case "tamper":
+			faulted = true
 			if !w.tamperHead(s.P) {
 				return "", "", nil, "cannot modify the authenticated part inside this fragment"
 			}
@@ -164,14 +170,40 @@ func replay(bh *behaviour, seed int64) (sig, what string, div *divergence, unrea
 		}
 		groups := w.post(s.P, toSend)
 
-		// ---- property-level observables: a difference here contradicts the property directly
-		if s.Body > 0 {
-			want := bodyOf(s.Body, seed)
-			if err != nil || !bytes.Equal(out, want) || !encf {
-				return "otr-data-not-delivered", fmt.Sprintf("step %d: Receive should deliver user message %d (%d bytes) unchanged and marked encrypted; got %d bytes, encrypted=%v, err=%v", i, s.Body, len(want), len(out), encf, err), nil, ""
+		// ---- property-level observables: a difference here contradicts the property directly.
+		// What a user is handed must be, in order and without repetition, messages the peer's user sent; and
+		// without network faults every message the model delivers must be delivered.
+		if s.Act == "send" && err == nil {
+			sentBodies[s.P] = append(sentBodies[s.P], bodyOf(s.Arg, seed))
+		}
+		var delivDiv *divergence
+		if s.Act == "deliver" && len(out) > 0 {
+			from := sentBodies[peer(s.P)]
+			j := dlvIdx[s.P]
+			for j < len(from) && !bytes.Equal(from[j], out) {
+				j++
 			}
-		} else if s.Act == "deliver" && len(out) > 0 {
-			return "otr-unexpected-delivery", fmt.Sprintf("step %d: Receive returned %d bytes of plaintext (encrypted=%v) where the model delivers nothing (rejected, replayed or protocol message)", i, len(out), encf), nil, ""
+			if j >= len(from) || !encf {
+				return "otr-unexpected-delivery", fmt.Sprintf("step %d: Receive handed %d bytes (encrypted=%v) to %s's user that are not the next undelivered message(s) the peer sent: changed, repeated, reordered or forged (model: %s)",
+					i, len(out), encf, s.P, map[bool]string{true: "delivers message " + fmt.Sprint(s.Body), false: "delivers nothing"}[s.Body > 0]), nil, ""
+			}
+			dlvIdx[s.P] = j + 1
+			if s.Body == 0 || !bytes.Equal(out, bodyOf(s.Body, seed)) {
+				delivDiv = &divergence{"delivered message", i, s.Body, fmt.Sprintf("genuine message #%d of the peer", j+1)}
+			}
+		} else if s.Body > 0 {
+			want := bodyOf(s.Body, seed)
+			if len(want) > 0 || err != nil || !encf {
+				if !faulted {
+					return "otr-data-not-delivered", fmt.Sprintf("step %d: Receive should deliver user message %d (%d bytes) unchanged and marked encrypted; got %d bytes, encrypted=%v, err=%v", i, s.Body, len(want), len(out), encf, err), nil, ""
+				}
+				delivDiv = &divergence{"delivered message", i, s.Body, fmt.Sprintf("nothing (err %v)", err)}
+			} else {
+				dlvIdx[s.P]++
+			}
+		}
+		if delivDiv != nil {
+			return "", "", delivDiv, ""
 		}
 		for _, ev := range []string{"smpcomplete", "smpfailed"} {
 			if (chg == ev) != (s.Chg == ev) {
